@@ -1,5 +1,6 @@
 //! unit: u01i
-//! properties: C01
+//! properties: C01 C02
+//! note: also run for C02: the code it constrains lies inside mechanisms those properties name (a change made there for their sake must meet these clauses too)
 //! note: FundedChannel::build_closing_transaction: a cooperative close pays each party its final balance less only the negotiated fee, paid by the funder
 //! trusted: R5: FundedChannel / ChannelContext / FundingScope / ChannelTransactionParameters are self skeletons with exactly the fields the body reads; FundingScope::is_outbound / get_value_satoshis are extracted and verified; ClosingTransaction::new is external_body and assumed to record the two output values; get_closing_scriptpubkey / funding_outpoint / into_bitcoin_outpoint / ScriptBuf::clone are external_body (scripts and outpoints are opaque); R8: `ChannelError::close(format!(..))` replaced by a stub constructor (error text has no effect on the result value's variant)
 //! trusted: R15 (deep slice): closing_signed: the unit extracts the whole fee-negotiation statement (fee-range and legacy branches) that follows calculate_closing_fee_limits, verbatim, as a function of (msg, our_min_fee, our_max_fee); the function-local macro propose_fee!(X) (builds, signs and returns the closing transaction with fee X) is replaced by `return Ok(X)`; signature checks and transaction building before it are dropped and not claimed; error strings dropped (R8); assume_specification for u64::div_ceil and core::cmp::min / core::cmp::max (std definitions)
